@@ -65,6 +65,10 @@ def tiers(ctx):
     mid = dict(Lits=S("p1", "nl", "br2"), VarVals=S("p1", "e1", "d2", "w1"), ThisVals=S("p1", "d4"),
                FldVals=S("p1", "d1"), CondVals=S("bT", "bF", "e1", "p1"), LoopLeafs=S("this", "idx", "last"),
                SubM=S("subm"), GFlds=S("g1"))
+    if q:
+        mid.update(Lits=S("p1", "nl"), VarVals=S("p1", "d2"), CondVals=S("bT", "bF", "p1"), LoopLeafs=S("this", "idx"))
+    else:
+        mid.update(Lits=S("p1", "nl"), VarVals=S("p1", "d2", "w1"), CondVals=S("bT", "bF", "p1"), LoopLeafs=S("this", "idx"))
     loops = dict(Lits=S(), Conds=S(), QFlds=S(), Blocks=S(), Imgs=S(), CondOpens=S(), AllowExt=False, CondVals=S("bT"))
     layers = {
         # every name, literal and value class in every position of the smallest templates
@@ -75,7 +79,7 @@ def tiers(ctx):
     if not q:
         # every loop shape up to two levels with every value class and with unused data
         layers["loops"] = consts(FULL, loops, MaxNodes=3, MaxDepth=3, Vars=S("v1"), Flds=S("f1"), NoiseOpts=NOISE)
-    sim = dict(num=1500, depth=80, limit=5000) if q else dict(num=8000, depth=90, limit=40000)
+    sim = dict(num=1200, depth=80, limit=5000) if q else dict(num=8000, depth=90, limit=40000)
     simc = consts(FULL, MaxNodes=7 if q else 9, MinNodes=4 if q else 5, MaxDepth=3, NoiseOpts=NOISE)
     return mc, layers, simc, sim
 
